@@ -9,7 +9,8 @@
 (* next to a bracket; the text may end in a comment), the spelling of a    *)
 (* keyword (any letter case) and resolves an alternative.  Fault actions   *)
 (* (at most one per text) truncate the text, drop or duplicate a token, or *)
-(* insert a multi-byte character between two tokens.  A finished state     *)
+(* insert a multi-byte character between two tokens, or end the text       *)
+(* inside a token (cut escape sequence, open string).  A finished state    *)
 (* holds one request text; TLC -simulate produces as many as asked.        *)
 (* Trees, the rendering of terms, keyword spellings and the multi-byte     *)
 (* characters come from the case file (JSON).                              *)
@@ -126,46 +127,60 @@ VARIABLES i,        \* index of the case being printed
           text,     \* text emitted so far
           prev,     \* previous token's text ("" at the start)
           fault,    \* "" or a description of the injected fault
+          fat,      \* faulty specification: the fault is injected once at most this many tokens remain (0 = never);
+                    \* chosen with the case, so that faults are spread evenly over the text instead of piling up at its start
           done
-vars == <<i, toks, text, prev, fault, done>>
+vars == <<i, toks, text, prev, fault, fat, done>>
 
 Brackets == {"{", "}", "(", ")"}
+\* punctuation that needs no white space around it: "?o." "30." "?a;<p>" are complete tokens followed by the mark
+Tight == {".", ";", ","}
 Seps(a, b) == (IF a = "" THEN {""} ELSE {}) \cup {Aux.seps[k] : k \in 1..Len(Aux.seps)} \cup
               {Aux.comments[k] : k \in 1..Len(Aux.comments)} \cup
-              (IF a \in Brackets \/ b \in Brackets THEN {""} ELSE {})
+              (IF a \in Brackets \/ b \in Brackets \/ a \in Tight \/ b \in Tight THEN {""} ELSE {})
 Spellings(t) == IF t.k = "kw" THEN {Aux.kw[t.s][k] : k \in 1..Len(Aux.kw[t.s])} ELSE {t.s}
 
-Init == /\ i \in 1..Len(Cases) /\ toks = PrintCase(Cases[i]) /\ text = "" /\ prev = "" /\ fault = "" /\ done = FALSE
+Init == /\ i \in 1..Len(Cases) /\ toks = PrintCase(Cases[i]) /\ text = "" /\ prev = "" /\ fault = "" /\ fat = 0 /\ done = FALSE
+FaultyInit == /\ i \in 1..Len(Cases) /\ toks = PrintCase(Cases[i]) /\ text = "" /\ prev = "" /\ fault = "" /\ done = FALSE
+              /\ fat \in 1..Len(toks)
+Due == fault = "" /\ fat > 0 /\ Len(toks) <= fat      \* the fault must be injected now
 
 Resolve == /\ ~done /\ toks # <<>> /\ Head(toks).k = "alt"
            /\ \E c \in {"a", "b"} : toks' = (IF c = "a" THEN Head(toks).a ELSE Head(toks).b) \o Tail(toks)
-           /\ UNCHANGED <<i, text, prev, fault, done>>
+           /\ UNCHANGED <<i, text, prev, fault, fat, done>>
 
-EmitTok == /\ ~done /\ toks # <<>> /\ Head(toks).k # "alt"
+EmitTok == /\ ~done /\ toks # <<>> /\ Head(toks).k # "alt" /\ ~Due
            /\ \E sp \in Spellings(Head(toks)) : \E sep \in Seps(prev, Head(toks).s) :
                 text' = text \o sep \o sp
            /\ prev' = Head(toks).s /\ toks' = Tail(toks)
-           /\ UNCHANGED <<i, fault, done>>
+           /\ UNCHANGED <<i, fault, fat, done>>
 
 Finish == /\ ~done /\ toks = <<>>
           /\ \E tail \in {"", " ", "\n"} \cup {Aux.tails[k] : k \in 1..Len(Aux.tails)} : text' = text \o tail
-          /\ done' = TRUE /\ UNCHANGED <<i, toks, prev, fault>>
+          /\ done' = TRUE /\ UNCHANGED <<i, toks, prev, fault, fat>>
 
 \* ---- faults (at most one per text)
-Truncate == /\ ~done /\ fault = "" /\ Len(toks) > 0 /\ prev # ""
-            /\ fault' = "truncate" /\ toks' = <<>> /\ UNCHANGED <<i, text, prev, done>>
-DropTok  == /\ ~done /\ fault = "" /\ Len(toks) > 0 /\ Head(toks).k # "alt"
-            /\ fault' = "drop " \o Head(toks).s /\ toks' = Tail(toks) /\ UNCHANGED <<i, text, prev, done>>
-DupTok   == /\ ~done /\ fault = "" /\ Len(toks) > 0 /\ Head(toks).k # "alt"
-            /\ fault' = "duplicate " \o Head(toks).s /\ toks' = <<Head(toks)>> \o toks /\ UNCHANGED <<i, text, prev, done>>
-Multibyte == /\ ~done /\ fault = "" /\ Len(toks) > 0
+Truncate == /\ ~done /\ Due /\ Len(toks) > 0 /\ prev # ""
+            /\ fault' = "truncate" /\ toks' = <<>> /\ UNCHANGED <<i, text, prev, fat, done>>
+DropTok  == /\ ~done /\ Due /\ Len(toks) > 0 /\ Head(toks).k # "alt"
+            /\ fault' = "drop " \o Head(toks).s /\ toks' = Tail(toks) /\ UNCHANGED <<i, text, prev, fat, done>>
+DupTok   == /\ ~done /\ Due /\ Len(toks) > 0 /\ Head(toks).k # "alt"
+            /\ fault' = "duplicate " \o Head(toks).s /\ toks' = <<Head(toks)>> \o toks /\ UNCHANGED <<i, text, prev, fat, done>>
+Multibyte == /\ ~done /\ Due /\ Len(toks) > 0
              /\ \E k \in 1..Len(Aux.mb) : toks' = TM(Aux.mb[k]) \o toks
-             /\ fault' = "multibyte" /\ UNCHANGED <<i, text, prev, done>>
+             /\ fault' = "multibyte" /\ UNCHANGED <<i, text, prev, fat, done>>
+
+\* the text ends inside a token: a literal or IRI cut in the middle of an escape sequence, an unterminated string, a
+\* lone sigil (Aux.cuts)
+\* ... where a term is expected (so that the parser gets as far as the cut token)
+CutInside == /\ ~done /\ Due /\ Len(toks) > 0 /\ prev # "" /\ Head(toks).k = "term"
+             /\ \E k \in 1..Len(Aux.cuts) : \E sep \in {" ", "\n"} : text' = text \o sep \o Aux.cuts[k]
+             /\ fault' = "cut inside a token" /\ toks' = <<>> /\ UNCHANGED <<i, prev, fat, done>>
 
 Next == Resolve \/ EmitTok \/ Finish
-FaultyNext == Next \/ Truncate \/ DropTok \/ DupTok \/ Multibyte
+FaultyNext == Next \/ Truncate \/ DropTok \/ DupTok \/ Multibyte \/ CutInside
 Spec == Init /\ [][Next]_vars
-FaultySpec == Init /\ [][FaultyNext]_vars
+FaultySpec == FaultyInit /\ [][FaultyNext]_vars
 
 \* emission of finished texts (an "invariant" that prints)
 EmitDone == done => PrintT(<<"REPLAY", ToJson([i |-> i, text |-> text, fault |-> fault])>>)
